@@ -8,7 +8,6 @@ import (
 	"bytes"
 	"fmt"
 	"io"
-	"os"
 	"sync/atomic"
 	"testing"
 
@@ -522,5 +521,5 @@ func TestCheck(t *testing.T) {
 	r.Sample(map[string]string{"input_hex": "3003000561", "what": "PUBLISH whose topic length field (5) exceeds the declared remaining length (3)"})
 	r.Sample(map[string]string{"input_hex": "30020000", "what": "PUBLISH with zero-length topic"})
 	r.Sample(map[string]string{"input_hex": fmt.Sprintf("%x", corpus[0]), "what": "first valid corpus entry before mutation"})
-	os.Exit(r.Finish(60))
+	h.Exit(r.Finish(60))
 }
